@@ -47,6 +47,17 @@ class Elem:
         return 'Elem(%r)' % (self.r,)
 
 
+class MaskV:
+    """element-wise boolean mask over a data vector of unknown length: a conjunction of comparisons
+    [(op, left, right)] (left/right: the generic element of a vector, or a scalar)"""
+
+    def __init__(self, terms):
+        self.terms = list(terms)
+
+    def __repr__(self):
+        return 'MaskV(%s)' % ' & '.join('%r %s %r' % (a, o, b) for o, a, b in self.terms)
+
+
 class VecItem:
     """item appended to a list inside a loop over an Elem"""
 
@@ -224,6 +235,7 @@ class Interp:
         self.D = domain or nf.Domain()
         self.order = order            # callable(left Rat, op str, right Rat) -> bool|None
         self.max_depth = max_depth
+        self.data_kind = {}           # atoms that stand for user data (see fitmodel): atom -> generic/const/nan
         self.global_vars = {}         # (module, name) -> value assigned through a ``global`` statement
         self.depth = 0
         self.stack = []               # ids of the FunctionDefs being inlined (recursion guard)
@@ -820,6 +832,12 @@ class Interp:
         if isinstance(b, (int, Fr)):
             b = C(b)
         if isinstance(a, Rat) and isinstance(b, Rat):
+            # +infinity against anything finite
+            for x_, y_, flip in ((a, b, False), (b, a, True)):
+                if y_.is_monomial() and list(y_.atoms()) == ['INF'] and y_.eq(Rat.atom('INF')) and \
+                        'INF' not in x_.atoms() and op in ('<', '<=', '>', '>=', '==', '!='):
+                    less = not flip      # x_ < INF when x_ is the left operand
+                    return {'<': less, '<=': less, '>': not less, '>=': not less, '==': False, '!=': True}[op]
             diff = a - b
             if diff.is_const() or diff.iszero():
                 dv = diff.const_value() if not diff.iszero() else Fr(0)
@@ -859,6 +877,9 @@ class Interp:
     def truth(self, v, node=None):
         if isinstance(v, bool):
             return v
+        if getattr(v, 'ambiguous_eq', False):
+            raise Unsupported('truth value of number == sequence (depends on whether the number is a numpy value)',
+                              node)
         if v is None:
             return False
         if isinstance(v, str):
@@ -1237,6 +1258,36 @@ class Frame:
             for t, x in zip(target.elts, items):
                 self.assign(t, x)
             return
+        if isinstance(target, ast.Subscript) and isinstance(target.slice, ast.Slice) and not (
+                target.slice.lower is None and target.slice.upper is None and target.slice.step is None):
+            base = self.ev(target.value)
+            if isinstance(base, ListV):
+                def bound(e):
+                    if e is None:
+                        return None
+                    b_ = self.ev(e)
+                    if isinstance(b_, Rat) and (b_.is_const() or b_.iszero()) and \
+                            (b_.iszero() or b_.const_value().denominator == 1):
+                        return 0 if b_.iszero() else int(b_.const_value())
+                    raise Unsupported('slice store with a symbolic bound', target, self.module.relpath)
+                sl = slice(bound(target.slice.lower), bound(target.slice.upper), bound(target.slice.step))
+                pos = list(range(*sl.indices(len(base.items))))
+                if getattr(base, 'is_array', False):
+                    if isinstance(v, ListV):
+                        if len(v.items) != len(pos):
+                            raise _RaisedExc(Raised('ValueError', target))     # could not broadcast
+                        for p_, x_ in zip(pos, v.items):
+                            base.items[p_] = x_
+                    elif isinstance(v, (Rat, SumV)):
+                        for p_ in pos:
+                            base.items[p_] = v
+                    else:
+                        raise Unsupported('slice store of %r' % (v,), target, self.module.relpath)
+                    return
+                if isinstance(v, ListV) and (sl.step in (None, 1)):
+                    base.items[sl] = list(v.items)
+                    return
+            raise Unsupported('slice store', target, self.module.relpath)
         if isinstance(target, ast.Subscript):
             base = self.ev(target.value)
             idx = self.ev(target.slice)
@@ -1317,6 +1368,13 @@ class Frame:
             if I.global_vars and (self.module.name, n.id) in I.global_vars:
                 return I.global_vars[(self.module.name, n.id)]     # rebound through a ``global`` statement
             return self.global_name(n)
+        if isinstance(n, ast.BinOp) and isinstance(n.op, ast.BitAnd):
+            la, rb = self.ev(n.left), self.ev(n.right)
+            if isinstance(la, MaskV) and isinstance(rb, MaskV):
+                return MaskV(la.terms + rb.terms)
+            if isinstance(la, bool) and isinstance(rb, bool):
+                return la and rb
+            raise Unsupported('operator & on %r, %r' % (la, rb), n, self.module.relpath)
         if isinstance(n, ast.BinOp):
             if type(n.op) not in _OPS:
                 raise Unsupported('operator', n, self.module.relpath)
@@ -1390,6 +1448,26 @@ class Frame:
                                            rs[i] if rs is not None else right, n) for i in range(m)])
                     out.is_array = True
                     return out
+                if o in ('==', '!=') and len(n.ops) == 1 and (
+                        (isinstance(left, Rat) and isinstance(right, ListV) and right.items and
+                         not getattr(right, 'is_set', False) and all(isinstance(x, Rat) for x in right.items)) or
+                        (isinstance(right, Rat) and isinstance(left, ListV) and left.items and
+                         not getattr(left, 'is_set', False) and all(isinstance(x, Rat) for x in left.items))):
+                    # number == sequence of numbers: element by element when either side is a numpy value (and plain
+                    # False for two builtin values - which of the two is not tracked, so the result may only be
+                    # used where an array is expected; its truth value is refused)
+                    sc, seq = (left, right) if isinstance(left, Rat) else (right, left)
+                    out = ListV([I.compare(o, sc, x, n) for x in seq.items])
+                    out.is_array = True
+                    out.ambiguous_eq = True
+                    return out
+                if o in ('<', '<=', '>', '>=') and (getattr(left, 'kind', None) is not None or
+                                                     getattr(right, 'kind', None) is not None):
+                    # a data vector compared element by element: which elements pass is not one truth value
+                    if len(n.ops) != 1:
+                        raise Unsupported('chained comparison of a data vector', n, self.module.relpath)
+                    return MaskV([(o, left.r if isinstance(left, Elem) else left,
+                                   right.r if isinstance(right, Elem) else right)])
                 if not I.compare(o, left, right, n):
                     return False
                 left = right
@@ -1397,7 +1475,13 @@ class Frame:
         if isinstance(n, ast.IfExp):
             return self.ev(n.body) if I.truth(self.ev(n.test), n) else self.ev(n.orelse)
         if isinstance(n, (ast.List, ast.Tuple)):
-            return ListV([self.ev(e) for e in n.elts])
+            out_ = []
+            for e in n.elts:
+                if isinstance(e, ast.Starred):
+                    out_.extend(self.iter_items(self.ev(e.value), e))       # [*a, b]
+                else:
+                    out_.append(self.ev(e))
+            return ListV(out_)
         if isinstance(n, ast.Dict):
             dv = DictV()
             for k, v in zip(n.keys, n.values):
@@ -1657,6 +1741,18 @@ class Frame:
             raise _RaisedExc(Raised('TypeError', n))        # list/str indices must be integers
         if isinstance(base, Elem) and isinstance(idx, Elem) and getattr(idx, 'mask_all', False):
             return base
+        if isinstance(base, Elem) and getattr(base, 'kind', None) is not None and isinstance(base.r, Rat) \
+                and isinstance(idx, Rat):
+            # one entry of a data vector: a value of the same kind as its generic element, at an unknown position
+            if base.r.iszero() or base.kind in ('zero',):
+                return base.r
+            if base.kind == 'const':
+                return base.r
+            name = 'AT{%r}[%r]' % (base.r, idx)
+            for a_ in base.r.atoms():
+                if a_ in self.I.data_kind:
+                    self.I.data_kind[name] = self.I.data_kind[a_]
+            return self.I.D.sym(name)
         if isinstance(base, Elem):
             raise Unsupported('indexing into a vector of unknown length', n, self.module.relpath)
         if isinstance(base, Rat) and isinstance(idx, Rat):
@@ -2376,6 +2472,8 @@ def builtin_call(I, fr, name, args, kwargs, n):
         if isinstance(v, ListV):
             vals = [I.truth(x, n) for x in v.items]
             return any(vals) if name == 'any' else all(vals)
+        if isinstance(v, Elem) and isinstance(v.r, bool):
+            return v.r          # the same truth value for every element of a (non-empty) vector
         raise Unsupported('%s() of %r' % (name, v), n)
     if name == 'set':
         v = args[0] if args else ListV([])
@@ -2966,6 +3064,8 @@ def _np_anyall(which):
             return any(v.items) if which == 'any' else all(v.items)
         if isinstance(v, bool):
             return v
+        if isinstance(v, Elem) and isinstance(v.r, bool):
+            return v.r          # the same truth value for every element of a (non-empty) vector
         raise Unsupported('np.%s operand' % which, n)
     return h
 
@@ -3646,6 +3746,16 @@ def _np_flatnonzero(I, fr, args, kwargs, n):
     raise Unsupported('np.flatnonzero operand', n)
 
 
+def _np_where(I, fr, args, kwargs, n):
+    if len(args) == 1 and not kwargs and isinstance(args[0], ListV) and \
+            all(isinstance(x, bool) for x in args[0].items):
+        idx = ListV([C(i) for i, x in enumerate(args[0].items) if x])
+        idx.is_array = True
+        idx.dtype = 'int'
+        return ListV([idx])
+    raise Unsupported('np.where form', n)
+
+
 def _np_full(I, fr, args, kwargs, n):
     shape = _arg(args, kwargs, 0, 'shape')
     fill = _arg(args, kwargs, 1, 'fill_value')
@@ -3755,6 +3865,7 @@ NATIVE = {
     'numpy.full': _np_full,
     'numpy.negative': _operator_neg,
     'numpy.flatnonzero': _np_flatnonzero,
+    'numpy.where': _np_where, 'numpy.nonzero': _np_where,
     'operator.add': _operator('+'), 'operator.sub': _operator('-'), 'operator.mul': _operator('*'),
     'operator.truediv': _operator('/'), 'operator.pow': _operator('**'), 'operator.neg': _operator_neg,
     'functools.reduce': _functools_reduce,
@@ -3795,9 +3906,10 @@ class RankOrder:
     """ordering oracle: atoms (and rational constants) are compared through an
     assumed assignment of ranks; anything else stays undecided."""
 
-    def __init__(self, ranks, const_ranks=False):
+    def __init__(self, ranks, const_ranks=False, fallback=None):
         self.ranks = ranks if isinstance(ranks, dict) else dict(ranks)     # shared: callers may add ranks later
         self.const_ranks = const_ranks
+        self.fallback = fallback      # callable(atom name) -> rank | None for atoms created during interpretation
 
     def rank(self, r):
         if r.is_const() or r.iszero():
@@ -3807,7 +3919,10 @@ class RankOrder:
         if r.is_monomial():
             (k, v), = r.n.t.items()
             if v == 1 and len(k) == 1 and k[0][1] == 1:
-                return self.ranks.get(k[0][0])
+                got = self.ranks.get(k[0][0])
+                if got is None and self.fallback is not None:
+                    got = self.fallback(k[0][0])
+                return got
         return None
 
     def __call__(self, a, op, b):
